@@ -671,6 +671,9 @@ func randIntBits(r *Rng, bits int, distinctBytes bool) uint64 {
 	return v
 }
 
+// set around a genEnv call to fix the number of dialects generated (-1: random)
+var forceDialectCount = -1
+
 func randTup(r *Rng, typ string, format int, distinct bool) string {
 	switch typ {
 	case "FILETIME", "SMB_TIME":
@@ -710,6 +713,9 @@ func randTup(r *Rng, typ string, format int, distinct bool) string {
 			1980+r.Intn(128), r.Intn(16), r.Intn(32), randIntBits(r, 32, distinct), hx(buf), hx(ss), hx(cs), hx(name))
 	case "Dialects":
 		k := r.Intn(5)
+		if forceDialectCount >= 0 {
+			k = forceDialectCount
+		}
 		var bs [][]byte
 		for i := 0; i < k; i++ {
 			d := r.BytesFrom(1+r.Intn(12), []byte("NT LM0.12PCWORKdos"))
